@@ -108,6 +108,15 @@ pub fn step(name: &str, detail: &str) {
                 );
                 let _ = f.flush();
             }
+            // let already-enqueued work of other tasks (the WAL writer) reach the disk first
+            let delay = std::env::var("VERIF_CRASH_DELAY_MS")
+                .ok()
+                .and_then(|v| v.parse::<u64>().ok())
+                .unwrap_or(0);
+            drop(st);
+            if delay > 0 {
+                std::thread::sleep(std::time::Duration::from_millis(delay));
+            }
             std::process::abort();
         }
     }
